@@ -380,7 +380,7 @@ def histories(depth, quick):
         for h in itertools.product(QUERIES, repeat=n):
             if all(q[1] != "add_point@" for q in h[:-1]):
                 yield h
-    if quick:
+    if quick == "triples":
         terms = [q for q in QUERIES if q[0] != "F" and q[1] != "add_point@"]
         for a in terms:
             for b in terms:
@@ -451,8 +451,11 @@ def r_function_system(ctx):
     ctx.unit("Function (stores of a weighted sum, unrolled as a system)")
     quick = ctx.tier != "thorough"
     depth = 2 if quick else 3
-    jobs = [(fl, z, depth, quick, None) for fl in itertools.product((True, False), repeat=2) for z in (False, True)]
-    jobs += [((True, True), False, depth, quick, False), ((True, True), True, depth, quick, False)]
+    # quick tier: the histories of three queries (both terms asked before the sum) in the configurations where they have found something
+    tri = lambda fl, z, ff: "triples" if quick and (fl, z, ff) in (((True, True), True, None), ((True, False), False, None), ((False, False), True, None),
+                                                                  ((True, True), False, False)) else False
+    jobs = [(fl, z, depth, tri(fl, z, None), None) for fl in itertools.product((True, False), repeat=2) for z in (False, True)]
+    jobs += [((True, True), False, depth, tri((True, True), False, False), False), ((True, True), True, depth, False, False)]
     jobs += [((True, False, True), False, 2, False, None), ((False, True, False), True, 1 if quick else 2, False, None)]
     _REPO = repo
     results = None
